@@ -140,6 +140,14 @@ def mon(sc, res):
     fails = M.m_c12_lists(sc, res)
     for st in res["steps"]:
         op, io_ = st["op"], st["impl"]
+        if io_ is not None and io_["exc"] is None and op["op"] in ("create", "verify", "diff") and not op.get("sf"):
+            # whichever way "matched" is read: an entry that is on disk is either excluded (then it is not reported) or
+            # not excluded (then it is found) - it can never be reported missing
+            at = op.get("at", "")
+            for p in io_.get("missing", []):
+                full = (at + "/" + p) if at else p
+                if full in io_["media_after"]:
+                    fails.append({"what": f"{op['op']} {json.dumps({k: v for k, v in op.items() if k not in ('op', 'now')}, ensure_ascii=False)} reports {p!r} missing although it is on disk (patterns in force exclude it from the traversal but not from the completeness check)", "replay": sc})
         if op["op"] != "create" or io_ is None or io_["exc"] is not None:
             continue
         for h, lst in M.written_by_hist(io_, op.get("at", "")).items():
@@ -149,6 +157,17 @@ def mon(sc, res):
                     if "ascmhl" in comps or ".DS_Store" in comps:
                         fails.append({"what": f"{h}/ascmhl/{name}: record for {r['path']!r} - the ascmhl folders and .DS_Store must always be excluded (create {json.dumps({k: v for k, v in op.items() if k not in ('op', 'now')}, ensure_ascii=False)})", "replay": sc})
     return fails
+
+
+def late_dir_pattern_scenarios():
+    """a folder that an earlier generation recorded is later covered by a directory pattern"""
+    t = {"a.txt": "a", "s/b.txt": "b", "s/n/c.txt": "c", "tmp/x.bin": "x", "e/": None}
+    out = []
+    for pat in ("s/", "tmp/", "n/", "e/"):
+        ops = [{"op": "create", "at": "", "h": ["md5"], "now": "2026-03-01 12:00:01"}, {"op": "verify", "at": "", "i": [pat]}, {"op": "diff", "at": "", "i": [pat]}, {"op": "verifydh", "at": "", "i": [pat]},
+               {"op": "create", "at": "", "h": ["md5"], "now": "2026-03-01 12:00:02", "i": [pat]}, {"op": "verify", "at": ""}, {"op": "create", "at": "", "h": ["sha1"], "now": "2026-03-01 12:00:03"}]
+        out.append({"profile": "c12-late-dir", "root": "root", "tree": dict(t), "ops": ops})
+    return out
 
 
 def fixed_scenarios():
@@ -163,7 +182,7 @@ def fixed_scenarios():
 
 
 def run(ctx):
-    scs = fixed_scenarios() + _scn.standard_pool(ctx, ctx.scale(60, 1000), ctx.scale(25, 400))
+    scs = fixed_scenarios() + late_dir_pattern_scenarios() + _scn.standard_pool(ctx, ctx.scale(60, 1000), ctx.scale(25, 400))
     for k, sc in enumerate(scs):
         if k % 3 == 0 and "s/.DS_Store" not in sc["tree"]:
             sc["tree"][".DS_Store"] = "finder junk"
@@ -172,7 +191,7 @@ def run(ctx):
     # matcher disagreements are correspondence differences: report through extra mechanism
     rc_extra = {"consistency_pairs": ce, "matcher_pairs_checked": mk, "matcher_disagreements": len(md)}
     fails = cf + [{"what": d["what"], "replay": d["replay"], "signature": None} for d in md[:5]] if md else cf
-    return _scn.run_scn(ctx, scs, mon, witness_ids=("D10", "D5a"), extra_fails=fails, extra_cov=rc_extra,
+    return _scn.run_scn(ctx, scs, mon, witness_ids=("D10", "D5a", "D16"), extra_fails=fails, extra_cov=rc_extra,
         assumptions=["pattern fragment: literals and globs (* ? [..]) per component, directory patterns name/, patterns anchored by a leading or inner slash, negation (last match wins); no ** and no escapes", "'matched' = pathspec gitwildmatch on the path relative to the command root"])
 
 
